@@ -26,7 +26,7 @@ ASSUMPTIONS = [
 ]
 COMPONENTS = {"real": ["pyxel exposure/run_pipeline/containers/ModelGroup debug capture", "xarray"], "stub": []}
 BUDGET = {"quick": {"n": 480, "wall": 100, "determinism": 4}, "thorough": {"n": 24000, "wall": 1500, "determinism": 12}}
-REQUIRED_REACH = ["rerun_with_other_start_time", "clusters_edited_in_place", "inplace_photon_add", "clusters_written", "debug_runs", "photon3d_runs", "flat_layout_compared", "scene_runs", "data_runs", "image_dtype:uint8", "image_dtype:uint64", "float_dtype:float16", "multi_step"]
+REQUIRED_REACH = ["photon3d_with_foreign_coordinates", "rerun_with_other_start_time", "clusters_edited_in_place", "inplace_photon_add", "clusters_written", "debug_runs", "photon3d_runs", "flat_layout_compared", "scene_runs", "data_runs", "image_dtype:uint8", "image_dtype:uint64", "float_dtype:float16", "multi_step"]
 
 IMG = ("uint8", "uint16", "uint32", "uint64")
 FLT = ("float16", "float32", "float64")
@@ -62,6 +62,8 @@ def generate(rng, tier):
         if rng.random() < 0.2:
             w.append("data")
         a["write"] = w
+        if "photon3d" in w and rng.random() < 0.4:
+            a["foreign_coords"] = True  # the cube carries row / column labels of its own
         a["image_dtype"] = idt
         a["float_dtype"] = fdt
         a["snap_trees"] = True
@@ -273,6 +275,8 @@ def _execute(scn):
         stats["inplace_photon_add"] = 1
     if "clusters" in written:
         stats["clusters_written"] = 1
+    if any(m["arguments"].get("foreign_coords") for _, m in ref.enabled_models(scn["pipeline"])):
+        stats["photon3d_with_foreign_coordinates"] = 1
     if "clusters*2" in written and "clusters" in written:
         stats["clusters_edited_in_place"] = 1
     if len(times) > 1:
